@@ -9,8 +9,8 @@ package main
 // executed and no external solver is used.
 
 import (
-	"go/constant"
 	"fmt"
+	"go/constant"
 	"go/token"
 	"go/types"
 	"math/big"
